@@ -68,6 +68,13 @@ func (n *BitcoinNode) handleMessage(ctx context.Context, connection net.Conn) er
 	errChan := make(chan error, 1)
 	start := time.Now()
 	go func() {
+		// A panic while handling data from the node must only fail this connection.
+		defer func() {
+			if r := recover(); r != nil {
+				errChan <- fmt.Errorf("Panic in message handler : %v", r)
+			}
+		}()
+
 		errChan <- handler(ctx, header, connection)
 	}()
 
@@ -612,6 +619,13 @@ func (n *BitcoinNode) handleTx(ctx context.Context, header *wire.MessageHeader,
 	tx := &wire.MsgTx{}
 	errChan := make(chan error, 1)
 	go func() {
+		// A panic while decoding data from the node must only fail this connection.
+		defer func() {
+			if r := recover(); r != nil {
+				errChan <- fmt.Errorf("Panic reading tx : %v", r)
+			}
+		}()
+
 		errChan <- readMessage(rb, header, tx)
 	}()
 
